@@ -271,10 +271,13 @@ def openCursorObs (strict : Bool) (z : Zstd) (key : KeyId) (aadBytes : Bytes) (t
         | .reject r => .reject r | .missingCall => .missingCall | .decodeError => .decodeError | .crash => .crash
       | .reject r => .reject r | .missingCall => .missingCall | .decodeError => .decodeError | .crash => .crash
 
-/-- `_open_call_token_dated` on an observed text → `(call_id, body)` (the returned `created_at` only feeds the cache
-    entry's age, which this model abstracts: `Cache` is a lookup, expiry is `Step.evict`) -/
+/-- `created_at` as `_open_call_token_dated` returns it (read from the first `tsFmtWidth` bytes of the plaintext) -/
+def createdAtOf (plain : Bytes) : Nat := leVal (plain.take Token.tsFmtWidth)
+
+/-- `_open_call_token_dated` on an observed text → `(call_id, body, created_at)`; `created_at` is what the call-state
+    cache ages its entry from -/
 def openCallObs (strict : Bool) (z : Zstd) (key : KeyId) (aadBytes : Bytes) (ttl : Nat) (now : Int) (o : WireObs) :
-    Res (Bytes × CallBody) :=
+    Res (Bytes × CallBody × Nat) :=
   match decodeObs strict o with
   | none => .reject .callB64
   | some t =>
@@ -286,7 +289,7 @@ def openCallObs (strict : Bool) (z : Zstd) (key : KeyId) (aadBytes : Bytes) (ttl
         match unpackCallPlain plain with
         | .ok r =>
           match callTtlCheck plain ttl now with
-          | .ok () => .ok r
+          | .ok () => .ok (r.1, r.2, createdAtOf plain)
           | .reject r => .reject r | .missingCall => .missingCall | .decodeError => .decodeError | .crash => .crash
         | .reject r => .reject r | .missingCall => .missingCall | .decodeError => .decodeError | .crash => .crash
       | .reject r => .reject r | .missingCall => .missingCall | .decodeError => .decodeError | .crash => .crash
@@ -299,11 +302,25 @@ structure CacheEntry where
   body : CallBody
 deriving Repr, DecidableEq
 
-/-- `_CallStateCache` as a lookup `(call_id, _identity(auth)) ↦ entry` (LRU order and expiry belong to C14) -/
-abbrev Cache := Bytes → List Char → Option CacheEntry
+/-- `_CallStateCache._entries`: `(call_id, _identity(auth)) ↦ (expires_at, resolved)` (LRU order belongs to C14) -/
+abbrev Cache := Bytes → List Char → Option (Int × CacheEntry)
 
-def Cache.put (c : Cache) (cid : Bytes) (ident : List Char) (e : CacheEntry) : Cache :=
+/-- `_CallStateCache.put` (the caller supplies the deadline, see `cacheDeadline`) -/
+def Cache.put (c : Cache) (cid : Bytes) (ident : List Char) (e : Int × CacheEntry) : Cache :=
   fun cid' s' => if cid' = cid ∧ s' = ident then some e else c cid' s'
+
+/-- `_CallStateCache.get(call_id, auth, now)`: an entry whose deadline has passed (`expires_at <= now`) is a miss; a hit
+    does **not** move the deadline (`Gen.Token.cacheGetRefreshes = false`).  For `token_ttl > 0` deadlines are whole
+    seconds, so comparing with `int(now)` is exact. -/
+def Cache.get (c : Cache) (cid : Bytes) (ident : List Char) (now : Int) : Option CacheEntry :=
+  match c cid ident with
+  | some (exp, e) => if exp ≤ now then none else some e
+  | none => none
+
+/-- deadline of a cache entry: `put(…, _call_cache_birth(app, created_at, now))` = `birth + cache.ttl` where the birth is
+    the call token's `created_at` when tokens expire (then `cache.ttl = token_ttl`), else `now` (`cache.ttl = 3600`) -/
+def cacheDeadline (ttl : Nat) (createdAt : Nat) (now : Int) : Int :=
+  if ttl > 0 then (createdAt : Int) + (ttl : Int) else now + 3600
 
 structure Server where
   key : KeyId
@@ -341,25 +358,26 @@ structure Accepted where
   callId : Bytes
   entry : CacheEntry
   hit : Bool
+  created : Nat          -- miss path: `created_at` of the opened call token (the written entry ages from it); 0 on a hit
 deriving Repr, DecidableEq
 
 /-- `_resolve_call_from_token` (the cache-miss path) -/
 def resolveCallFromToken (sh : Shape) (z : Zstd) (D : Decoders) (srv : Server) (r : ReqObs) (expected : Bytes) :
-    Res CacheEntry :=
+    Res (CacheEntry × Nat) :=
   match r.call with
   | none => .missingCall
   | some co =>
     match openCallObs sh.strictB64 z srv.key (callAad sh.methodBound r.method r.who) srv.ttl r.now co with
-    | .ok (cid, body) =>
+    | .ok (cid, body, created) =>
       if cid ≠ expected then .reject .pairing
-      else if D.callDecodes body then .ok ⟨r.method, body⟩ else .decodeError
+      else if D.callDecodes body then .ok (⟨r.method, body⟩, created) else .decodeError
     | .reject x => .reject x | .missingCall => .missingCall | .decodeError => .decodeError | .crash => .crash
 
 /-- last step: state decode + `bind_call_state` + `rehydrate` -/
-def finishRecover (D : Decoders) (st cid : Bytes) (e : CacheEntry) (hit : Bool)
+def finishRecover (D : Decoders) (st cid : Bytes) (e : CacheEntry) (hit : Bool) (created : Nat)
     (effs : List Effect) : List Effect × Res Accepted :=
   (effs ++ [.stateDecode, .bindCallState, .rehydrate],
-    if D.stateDecodes st then .ok ⟨st, cid, e, hit⟩ else .decodeError)
+    if D.stateDecodes st then .ok ⟨st, cid, e, hit, created⟩ else .decodeError)
 
 /-- `_unpack_and_recover_state`: cursor first, then cache; on a miss the call token (and the cache write); on a hit the
     method check and the declared-call-state-type check — "the cache must answer exactly as a cold worker would";
@@ -368,14 +386,14 @@ def recoverObs (sh : Shape) (z : Zstd) (D : Decoders) (srv : Server) (cache : Ca
     List Effect × Res Accepted :=
   match openCursorObs sh.strictB64 z srv.key (aad r.who) srv.ttl r.now r.cursor with
   | .ok (st, cid) =>
-    match cache cid (cacheIdent r.who) with
+    match cache.get cid (cacheIdent r.who) r.now with
     | some e =>
       if sh.methodBound && e.method != r.method then ([], .reject .method)
       else if !D.hitTypeDeclared e then ([], .decodeError)
-      else finishRecover D st cid e true []
+      else finishRecover D st cid e true 0 []
     | none =>
       match resolveCallFromToken sh z D srv r cid with
-      | .ok e => finishRecover D st cid e false [.cachePut]
+      | .ok (e, created) => finishRecover D st cid e false created [.cachePut]
       | .reject x => ([], .reject x) | .missingCall => ([], .missingCall)
       | .decodeError => ([], .decodeError) | .crash => ([], .crash)
   | .reject x => ([], .reject x) | .missingCall => ([], .missingCall)
@@ -485,8 +503,9 @@ def setCache (W : World) (i : Nat) (c : Cache) : World :=
 
 /-- one step of the system (all workers share `srv.key`; worker `i` owns cache `i`) -/
 inductive Step (sh : Shape) (E : Wire) (z : Zstd) (D : Decoders) (srv : Server) (keys : List KeyId) : World → World → Prop where
-  /-- `/init` of `method` on worker `i`: mints the call token (fresh call id), warms the cache, may mint a cursor -/
-  | init (W : World) (i : Nat) (km : CallMint) (cur : Option (Nat × Bytes × Nat)) :
+  /-- `/init` of `method` on worker `i` at time `now`: mints the call token (fresh call id), warms the cache with the
+      deadline of that token, may mint a cursor -/
+  | init (W : World) (i : Nat) (km : CallMint) (cur : Option (Nat × Bytes × Nat)) (now : Int) :
       km.WF → (∀ k ∈ W.calls, k.callId ≠ km.callId) →
       (∀ c, cur = some c → c.1 < 256 ^ Token.tsFmtWidth ∧ fitsLen c.2.1) →
       Step sh E z D srv keys W
@@ -494,7 +513,8 @@ inductive Step (sh : Shape) (E : Wire) (z : Zstd) (D : Decoders) (srv : Server) 
                       | some (t, st, n) => [⟨km.who, km.method, km.callId, t, st, n⟩]
                       | none => []) ++ W.cursors,
           calls := km :: W.calls,
-          caches := (setCache W i ((W.caches i).put km.callId (cacheIdent km.who) ⟨km.method, km.body⟩)).caches }
+          caches := (setCache W i ((W.caches i).put km.callId (cacheIdent km.who)
+                      (cacheDeadline srv.ttl km.t now, ⟨km.method, km.body⟩))).caches }
   /-- an accepted `/exchange` (continuation, exchange or cancel) on worker `i`; may mint the next cursor -/
   | turn (W : World) (i : Nat) (r : Req) (acc : Accepted) (effs : List Effect) (next : Option (Nat × Bytes × Nat)) :
       ReqKnown E (W.toks sh z srv.key) keys r → r.who.NulFreeDomain → NulFree r.method →
@@ -506,7 +526,8 @@ inductive Step (sh : Shape) (E : Wire) (z : Zstd) (D : Decoders) (srv : Server) 
                       | none => []) ++ W.cursors,
           calls := W.calls,
           caches := (setCache W i (if acc.hit then W.caches i
-                                    else (W.caches i).put acc.callId (cacheIdent r.who) acc.entry)).caches }
+                                    else (W.caches i).put acc.callId (cacheIdent r.who)
+                                      (cacheDeadline srv.ttl acc.created r.now, acc.entry))).caches }
   /-- eviction / expiry / restart: a cache loses entries -/
   | evict (W : World) (i : Nat) (c : Cache) :
       (∀ cid s e, c cid s = some e → W.caches i cid s = some e) →
